@@ -149,6 +149,26 @@ class Player(Actor):
                     if tm.media is None:
                         continue
                     if m.type != "dynamic":
+                        if not self.spec.get("static_media"):
+                            continue
+                        # a static presentation: the whole track (every timeline entry, or the numbers the Period
+                        # duration admits as a client counts them)
+                        if tm.timeline is not None:
+                            for i, e in enumerate(tm.timeline):
+                                out.append(SegRef(
+                                    period, aset, rep, "time",
+                                    mpdlib.segment_url(rep, tm.media, time=e.t, number=tm.start_number + i),
+                                    time=e.t, duration=e.d, index=i, count=len(tm.timeline), doc=doc))
+                        elif tm.duration:
+                            total = period.duration if period.duration is not None else m.mpd_duration
+                            if total is not None:
+                                d = Fraction(tm.duration, tm.timescale)
+                                cnt = -((-(total / d).numerator) // (total / d).denominator)
+                                for k in range(cnt):
+                                    out.append(SegRef(
+                                        period, aset, rep, "number",
+                                        mpdlib.segment_url(rep, tm.media, number=tm.start_number + k),
+                                        number=tm.start_number + k, index=k, count=cnt, doc=doc))
                         continue
                     ast = Fraction(m.ast_us, 1_000_000)
                     if tm.timeline is not None:
